@@ -139,6 +139,8 @@ impl Default for Prediction {
 }
 
 pub struct ModelOpts {
+    /// the dynamic fault-point ordinal continues from here (several entries in one host operation)
+    pub tick_start: u32,
     /// documented behaviour: `finally` runs on every exit path. When false the model
     /// reproduces the known deviation (finally only runs on the fall-through paths).
     pub finally_on_abrupt_exit: bool,
@@ -202,6 +204,7 @@ impl<'a> Model<'a> {
             conduit_stack: vec![],
             steps: 0,
         };
+        m.out.ticks = m.opts.tick_start;
         let r = match entry {
             Entry::Main => {
                 let mut frame = Frame::default();
